@@ -325,6 +325,10 @@ func (lam *Lambda) Compile(s *Scope, extraVars ...string) {
 	expand:
 		switch tf := f.(type) {
 		case Symbol:
+			if 0 < len(tf) && tf[0] == ':' {
+				// A keyword evaluates to itself, it is not a variable.
+				break
+			}
 			// Symbols are not case sensitive, variables are kept in lowercase.
 			name := strings.ToLower(string(tf))
 			if s.has(name) || lam.Doc.getArg(name) != nil {
